@@ -261,8 +261,9 @@ class RecordingCheck(PropertyCheck):
         try:
             rl.quiet()
             for name in rl.MODELLED_WORKLOADS:
-                for bodies in ([rl.LEAF_V1[name]], [rl.LEAF_V1[name], rl.LEAF_V2[name]],
-                               [rl.LEAF_V1[name], rl.LEAF_V1[name], rl.LEAF_V2[name]]):
+                histories = ([rl.LEAF_V1[name]], [rl.LEAF_V1[name], rl.LEAF_V2[name]],
+                             [rl.LEAF_V1[name], rl.LEAF_V1[name], rl.LEAF_V2[name]])
+                for bodies in (histories[1:] if self.tier == "quick" else histories):
                     t, d = self.trace_case(name, bodies, work)
                     terms.append(t)
                     descr.append(d)
